@@ -25,6 +25,7 @@ STMTS = [
     'x = (int)-y;', 'x = !y;', 'x = ~y;', 'x = y << 1;', 'x += y;', 'x = y / z;', 'x = y % z;', 'x;', 'x + y;',
     '-x;', 'x++;', '--x;', 'x = y++;', 'x = sizeof(y);', 'x = sizeof(int);', 'x = 1 + 2;', 'x = y + 1;', 'x = (int)y + (int)z;',
     'x = -(y + z);', 'x = !(y + z);', 'x = -(int)(y + z);', 'x = -(int)(long)y;', 'x = +(long)(int)y;', '(int)(long)x++;', 'x = (int)(long)y + z;', 'x = (long)(int)y++;', 'x = -(int)(y, z);', 'x = +(int)-y;', 'x = - - -y;', 'x = +(int)(y);', 'x = (int)(long)y;', 'x = y * (int)z;',
+    'x = !(y++);', '-(y++);', '!(y++);', 'x = !(-y);', 'x = sizeof(-y);', 'x = !(!(y++));', 'x = -(!y);', 'x = !(int)(y++);', 'x = !(int)-(long)y;', '+(--y);', 'x = sizeof(y++);',
     'x = f(y);', 'f(x);', 'x = y ? z : 1;', 'x = a[1];', '*p = x;', 'x = *p;', 'x = y = z;', 'x = (y = z);',
     'x = (y, z);', 'int q;', 'int q = 3;', 'int r[2];', 'return x;', 'return x + y;', 'return f(x);', 'break;', 'continue;', ';',
     '{ x = y; }', '{ }', 'goto L2;', 'assert(x < 1);', 'assume(x < 1);', 'x = -1;', 'x = +y;', 'x = --y;', 'typedef int T;',
